@@ -3,7 +3,8 @@ Totality of the functional encoder (C07, second half), part 2: `encode_subframe`
 whenever the oracle log has the SHAPE the function consumes (`SubLogOk`) — the `est` events of the
 `ApproxEnt` fixed stage, then the `qlpc` event of the LPC stage.  Nothing is asked of the quantised
 parameter set beyond `OEvent.Ok`: `compute_error` never panics, and the LPC candidate is dropped exactly
-when the exact residual is not encodable (`lpcCandidate_total`).
+when the exact residual is not encodable (`lpcCandidate_total`).  The bound `maxLpcOrder = 24` of `OEvent.Ok` on the
+number of coefficients is needed: beyond it the warm-up vector overflows its capacity (`lpcCandidate_over_capacity`).
 -/
 import FlacVerif.Lemmas.TotalLpc
 import FlacVerif.Lemmas.WrapLpc
@@ -134,11 +135,12 @@ theorem fixedStage_total (cfg : SubCfg) (xs : List Int) (bps baseline : Nat) (lo
 
 /-! ### the LPC stage -/
 
-/-- **The LPC stage never panics**, for ANY quantised parameter set of at most 64 coefficients: it consumes
-the `qlpc` event and returns a candidate exactly when every value of the exact LPC residual lies in
+/-- **The LPC stage never panics**, for ANY quantised parameter set of at most `maxLpcOrder = 24` coefficients
+(`qlpc::MAX_ORDER`, the capacity of the warm-up vector; with more, `lpcCandidate_over_capacity` shows the panic): it
+consumes the `qlpc` event and returns a candidate exactly when every value of the exact LPC residual lies in
 `-(2^31-1) ..= 2^31-1` (the range of FLAC residuals); otherwise the candidate is dropped. -/
 theorem lpcCandidate_total (cfg : SubCfg) (xs : List Int) (bps : Nat) (c : List Int) (s : Int) (p : Nat)
-    (rest : List OEvent) (hn : 64 ≤ xs.length) (hlen : xs.length < 2 ^ 16) (hc : c.length ≤ 64) :
+    (rest : List OEvent) (hn : 64 ≤ xs.length) (hlen : xs.length < 2 ^ 16) (hc : c.length ≤ maxLpcOrder) :
     ∃ f, lpcCandidate cfg xs bps (.qlpc c s p :: rest) = some (f, rest) ∧
       (f.isSome = true ↔ ∀ e ∈ lpcResidual c s.toNat xs, e.natAbs ≤ 2 ^ 31 - 1) := by
   obtain ⟨errors, fits, he, hel, her⟩ := computeError_total c s.toNat xs
@@ -151,11 +153,36 @@ theorem lpcCandidate_total (cfg : SubCfg) (xs : List Int) (bps : Nat) (c : List 
     rw [← hflag]
     simp
   | true =>
+    have hc64 : c.length ≤ 64 := by unfold maxLpcOrder at hc; omega
     obtain ⟨prc, hp⟩ := search_some errors c.length cfg.maxP (her rfl).1 (by rw [hel]; omega) (by rw [hel]; exact hlen)
-    simp only [encodeResidual, hp, Option.bind_eq_bind, Option.bind_some, if_true, Option.map_some]
+    simp only [encodeResidual, hp, Option.bind_eq_bind, Option.bind_some, if_true, if_pos hc]
     refine ⟨_, rfl, ?_⟩
     rw [← hflag]
     simp
+
+/-- **The capacity of the warm-up vector is a panic site**: a parameter set of more than `maxLpcOrder = 24`
+coefficients whose exact residual is encodable panics (in `encode_residual`, or else at `expect("LPC order exceeded the
+maximum")`); one whose residual is not encodable is dropped before that site is reached.  (Unreachable with a verified
+configuration: `OEvent.Ok`.) -/
+theorem lpcCandidate_over_capacity (cfg : SubCfg) (xs : List Int) (bps : Nat) (c : List Int) (s : Int) (p : Nat)
+    (rest : List OEvent) (hc : maxLpcOrder < c.length) :
+    lpcCandidate cfg xs bps (.qlpc c s p :: rest) =
+      if ∀ e ∈ lpcResidual c s.toNat xs, e.natAbs ≤ 2 ^ 31 - 1 then none else some (none, rest) := by
+  obtain ⟨errors, fits, he, hel, her⟩ := computeError_total c s.toNat xs
+  have hflag := computeError_flag_iff c s.toNat xs errors fits he
+  unfold lpcCandidate
+  simp only [he, Option.bind_some]
+  cases fits with
+  | false =>
+    have : ¬ ∀ e ∈ lpcResidual c s.toNat xs, e.natAbs ≤ 2 ^ 31 - 1 := by rw [← hflag]; simp
+    rw [if_neg this]
+    simp
+  | true =>
+    have : ∀ e ∈ lpcResidual c s.toNat xs, e.natAbs ≤ 2 ^ 31 - 1 := hflag.mp rfl
+    rw [if_pos this]
+    have hnc : ¬ c.length ≤ maxLpcOrder := by omega
+    simp only [if_true, if_neg hnc]
+    cases encodeResidual cfg.maxP errors c.length <;> rfl
 
 theorem lpcStage_total (cfg : SubCfg) (xs : List Int) (bps limit : Nat) (log : List OEvent)
     (hn : 64 ≤ xs.length) (hlen : xs.length < 2 ^ 16) (hok : ∀ e ∈ log, e.Ok)
@@ -171,10 +198,7 @@ theorem lpcStage_total (cfg : SubCfg) (xs : List Int) (bps limit : Nat) (log : L
     | e :: rest, hh =>
       simp only [List.head?_cons, Option.some.injEq] at hh
       subst hh
-      have hcl : c.length ≤ 64 := by
-        have := hok _ (List.mem_cons_self)
-        have h32 : c.length ≤ 32 := this.2.1
-        omega
+      have hcl : c.length ≤ maxLpcOrder := (hok _ (List.mem_cons_self)).2.1
       obtain ⟨f, hf, _⟩ := lpcCandidate_total cfg xs bps c s p rest hn hlen hcl
       simp only [hl, Bool.not_false, Bool.and_self, if_true, hf, Option.map_some, List.drop_succ_cons, List.drop_zero]
       exact ⟨_, rfl⟩
